@@ -113,7 +113,7 @@ def op_token_spacing(lines, rng):
     return new
 
 
-NOOP_LINES = ["pass", "\"\"\"a docstring\"\"\"", "'note'", "0", "...", "None", "pass  # nothing"]
+NOOP_LINES = ["\"\"\"One line.\"\"\"  # with a comment", "'''x'''  # noqa", "pass", "\"\"\"a docstring\"\"\"", "'note'", "0", "...", "None", "pass  # nothing"]
 
 
 def _inside_def(lines, pos, ind):
